@@ -53,7 +53,12 @@ def _exec_job(arg):
     for case in (job["cases"] if job.get("kind") == "_replay" else mod.expand(job)):
         cid = rec.case(case)
         n0 = len(rec.events)
-        nt = mod.run_case(case, rec, cid)
+        try:
+            nt = mod.run_case(case, rec, cid)
+        except Exception as exc:  # noqa: BLE001 - an exception escaping the library on an input the driver built as valid
+            rec.ev("Raised", cid, what="unexpected exception in %s" % drv, cls=type(exc).__name__,
+                   ve=isinstance(exc, ValueError))
+            nt = True
         ncases += 1
         if nt:
             nontriv.add(hashlib.sha1(json.dumps(case, sort_keys=True).encode()).hexdigest()[:16])
@@ -202,8 +207,9 @@ def check(prop, spec, tier, seed, replay=None):
             expected_ops = set(spec.get("expect_ops", []))
             if not expected_ops <= ops:
                 raise tlc.MachineryError("tracer gap: event kinds never recorded: %s" % sorted(expected_ops - ops))
-            _write_evidence(prop, spec, tier, seed, wall, mc_states, mc_trans, mc_runs, tr_states, tr_trans,
-                            len(files), nevents, ncases, len(nontriv), samples, violations, known_hits, sorted(ops))
+            if not os.environ.get("VERIF_NO_EVIDENCE"):
+                _write_evidence(prop, spec, tier, seed, wall, mc_states, mc_trans, mc_runs, tr_states, tr_trans,
+                                len(files), nevents, ncases, len(nontriv), samples, violations, known_hits, sorted(ops))
         print("%s %s: %d spec states (MC) + %d trace states; %d cases, %d events in %d trace files; "
               "%d violation(s), %d known-finding hit(s); %.1fs"
               % (prop, tier, mc_states, tr_states, ncases, nevents, len(files), len(violations), len(known_hits), wall))
